@@ -39,6 +39,10 @@ var c27groups = []c27group{
 	{"object-methods", "class Alpha\n  def val\n    1\n  end\n\n  def show\n    to_s\n  end\nend\nclass Beta < Alpha\nend\n",
 		[]string{"a = %Q%Alpha.new", "b = %Q%Beta.new", "dbtp a.to_s", "dbtp a.inspect", "dbtp a.nil?", "dbtp a == b", "dbtp b.is_a?(%Q%Alpha)", "dbtp b.to_s", "dbtp a.show", "dbtp b.frozen?", "a.nope"},
 		"class Alpha\n  def to_s\n    1\n  end\n\n  def inspect\n    :sym\n  end\nend\n"},
+	// an attribute declared in the grandparent, read through a subclass that is defined outside the namespace
+	{"attr-through-outside-subclass", "class Alpha\n  attr_reader :label\n  attr_accessor :count\n\n  def initialize(v)\n    @label = \"s\"\n    @count = v\n  end\nend\nclass Beta < Alpha\nend\n",
+		[]string{"class Leafq < %Q%Beta; end", "lf = Leafq.new(1)", "dbtp lf.label", "dbtp lf.count", "lf.label + 1", "lf.nope", "b = %Q%Beta.new(2)", "dbtp b.label"},
+		"class Origin\n  attr_reader :label\n\n  def initialize(v)\n    @label = 1\n  end\nend\nclass Beta < Origin\nend\n"},
 	{"classmethod-chain", "class Alpha\n  def self.build\n    Beta.new\n  end\nend\nclass Beta\n  def run\n    \"s\"\n  end\nend\n",
 		[]string{"r = %Q%Alpha.build", "dbtp r.run", "r.nope", "%Q%Beta.build"},
 		"class Beta\n  def run\n    1\n  end\n\n  def self.build\n    1\n  end\nend\n"},
